@@ -63,6 +63,15 @@ def case_strategy():
             for name, f in c["tree"].items():
                 if name != "oncecfg.h" and not name.endswith((".h", ".hpp")):
                     f["items"] = [["include", "quote", os.path.relpath("oncecfg.h", os.path.dirname(name) or ".")], ["chain", [["if", ["cmp", "ONCECFG", "==", 1], [["code", 1]]]], [["code", 1]]]] + f["items"]
+        # a configuration header outside the code base shared by a C and a free-form Fortran translation unit:
+        # it is parsed in the language of its includer, and which includer comes first must not matter
+        if draw(st.integers(0, 2)) == 0:
+            c.setdefault("extra", {})["../ext/mixcfg.h"] = "/* optional features, move the line out of this comment to enable:\n#define MIX_X 1\n*/\n#define MIX_Y 1\n"
+            c["extra"]["mixed_kernel.F90"] = '#include "../ext/mixcfg.h"\nsubroutine k()\n#ifdef MIX_X\n  integer :: i\n#endif\n#ifdef MIX_Y\n  integer :: j\n#endif\nend subroutine k\n'
+            c["tree"]["mixed_main.c"] = {"items": [["include", "quote", "../ext/mixcfg.h"], ["chain", [["ifdef", "MIX_X", [["code", 1]]]], [["code", 2]]], ["code", 1]], "style": [0]}
+            names = sorted(c["platforms"])
+            c["platforms"][draw(st.sampled_from(names))].append({"file": "mixed_kernel.F90", "defines": [], "dirs": [], "forced": []})
+            c["platforms"][draw(st.sampled_from(names))].append({"file": "mixed_main.c", "defines": [], "dirs": [], "forced": []})
         # CUDA files compiled several times with different architecture lists (passes selected per command)
         cus = sorted(n for n in c["tree"] if n.endswith(".cu"))
         if cus and draw(st.booleans()):
@@ -92,8 +101,11 @@ def attrs(root, dbs, platforms=None):
     h, _ = cbcase.file_histograms(st, cb)
     out = {}
     for fn in st.get_filenames():
+        rel = os.path.relpath(fn, root)
+        if rel.startswith(".."):
+            continue  # files outside the code base contribute their macros, never lines (C10)
         a, _ = observe.attribution_of(st, fn)
-        out[os.path.relpath(fn, root)] = a
+        out[rel] = a
     return out, st, cb
 
 
